@@ -63,7 +63,11 @@ func tableRemove(L *LState) int {
 
 func tableConcat(L *LState) int {
 	tbl := L.CheckTable(1)
-	sep := LString(L.OptString(2, ""))
+	sep := LString("")
+	if L.Get(2) != LNil {
+		// a string, or a number (which is converted, as wherever a string is expected)
+		sep = LString(L.CheckString(2))
+	}
 	i := L.OptInt(3, 1)
 	j := L.OptInt(4, tbl.Len())
 	// the range is taken as given (an empty one yields ""); the result is assembled in a buffer, not on
